@@ -68,6 +68,17 @@ Proof. exact reliable_never_retransmits. Qed.
 Print Assumptions C19_reliable_single_transmission.
 
 (** non-vacuity: a concrete run meets the hypotheses and shows T, 2T, T for N = 3 *)
+(** closed form of the whole schedule: the waits of transmissions 1..N add up to T*(2^(N-1) + 2^(N-3) - 1) ms
+    (N >= 3), i.e. 15.8 s for libnice's defaults T = 200 ms, N = 7 and 4T for the header's N = 3 *)
+Theorem C19_total_schedule : forall T N, 3 <= N ->
+  sum_wait T N (Z.to_nat N) = T * (2 ^ (N - 1) + 2 ^ (N - 3) - 1).
+Proof. exact sum_wait_total. Qed.
+Theorem C19_partial_schedule : forall T N n, Z.of_nat n < N ->
+  sum_wait T N n = T * (2 ^ Z.of_nat n - 1).
+Proof. exact sum_wait_prefix. Qed.
+Example C19_total_schedule_defaults : sum_wait 200 7 7 = 15800 /\ sum_wait 500 3 3 = 2000.
+Proof. exact sum_wait_default. Qed.
+
 Example C19_nonvacuous :
   let now0 := {| sec := 5; usec := 999500 |} in
   let ps := [ {| sec := 6; usec := 98499 |}; {| sec := 6; usec := 99500 |}; {| sec := 6; usec := 299500 |};
